@@ -8,10 +8,10 @@ import (
 	"encoding/hex"
 	"fmt"
 	"io"
+	"math"
 	"net/http"
 	"net/http/httptest"
 	"os"
-	"math"
 	"regexp"
 	"strconv"
 	"strings"
@@ -261,7 +261,13 @@ func (s *Stack) FEInvoke(caller int, payload []byte, clientCtx, traceID string, 
 	}
 	s.feCallers[j] = caller
 	s.mu.Unlock()
-	req := httptest.NewRequest("POST", "/2015-03-31/functions/function/invocations", bytes.NewReader(payload))
+	// every second request carries its event without an announced length (Transfer-Encoding: chunked, a streamed
+	// upload): net/http hands the handler ContentLength -1 and a body that yields the bytes
+	var rd io.Reader = bytes.NewReader(payload)
+	if j%2 == 0 {
+		rd = struct{ io.Reader }{rd}
+	}
+	req := httptest.NewRequest("POST", "/2015-03-31/functions/function/invocations", rd)
 	if badCtx {
 		req.Header.Set("X-Amz-Client-Context", "%%%not-base64%%%")
 	} else if clientCtx != "" {
